@@ -5,7 +5,7 @@ sys.path.insert(0, os.path.dirname(os.path.dirname(os.path.abspath(__file__))))
 import vlib
 from vlib import VERIF
 
-KINDS = ["iq", "sq"]
+KINDS = ["iq", "sq", "oq"]
 
 
 def run(ctx):
